@@ -29,10 +29,13 @@ def NSeries.getFlatIndex (s : NSeries α) : R (List Label) := do
   pure (repeatEach s.index (diffs (← NArr.listOffsets s.col)))
 
 /-- flat values of one field, chunk by chunk: `struct_array.field(f).flatten()`. -/
+def flatOfChunk (f : String) (s : PStruct α) : R (List α) :=
+  match s.kid? f with
+  | some k => pure k.list.flatten
+  | none => .error .keyError
+
 def NArr.flatField (c : PCol α) (f : String) : R (List α) := do
-  let per ← c.chunks.mapM fun s => match s.kid? f with
-    | some k => pure k.list.flatten
-    | none => .error .keyError
+  let per ← c.chunks.mapM (flatOfChunk f)
   pure per.flatten
 
 def tyOf (c : PCol α) (f : String) : String := ((c.ty.find? (·.1 == f)).map (·.2)).getD ""
